@@ -17,6 +17,10 @@ import (
 
 func main() {
 	root := os.Args[1]
+	mode := "remove"
+	if len(os.Args) > 2 {
+		mode = os.Args[2]
+	}
 	var files []string
 	for _, dir := range []string{".", "copy", "util"} {
 		ents, _ := os.ReadDir(filepath.Join(root, dir))
@@ -41,6 +45,10 @@ func main() {
 		off := func(p token.Pos) int { return fset.Position(p).Offset }
 		n := 0
 		emit := func(kind string, from, to token.Pos, repl string) {
+			removal := kind == "del" || kind == "delif" || kind == "dropL" || kind == "dropR"
+			if (mode == "modify") == removal {
+				return
+			}
 			n++
 			line := fset.Position(from).Line
 			fmt.Printf("%s:%d:%s#%d\t%s\t%d\t%d\t%s\n", rel, line, kind, n, rel, off(from), off(to), repl)
@@ -67,6 +75,38 @@ func main() {
 				if x.Op == token.LAND || x.Op == token.LOR {
 					emit("dropL", x.Pos(), x.End(), string(src[off(x.Y.Pos()):off(x.Y.End())]))
 					emit("dropR", x.Pos(), x.End(), string(src[off(x.X.Pos()):off(x.X.End())]))
+					if mode == "modify" {
+						other := "||"
+						if x.Op == token.LOR {
+							other = "&&"
+						}
+						emit("andor", x.OpPos, x.OpPos+2, other)
+					}
+				}
+				if mode == "modify" {
+					swap := map[token.Token]string{token.LSS: "<=", token.LEQ: "<", token.GTR: ">=", token.GEQ: ">", token.EQL: "!=", token.NEQ: "=="}
+					if r, ok := swap[x.Op]; ok {
+						emit("relop", x.OpPos, x.OpPos+token.Pos(len(x.Op.String())), r)
+					}
+				}
+			case *ast.IfStmt:
+				if mode == "modify" {
+					c := string(src[off(x.Cond.Pos()):off(x.Cond.End())])
+					emit("neg", x.Cond.Pos(), x.Cond.End(), "!("+c+")")
+				}
+			case *ast.CallExpr:
+				if mode == "modify" && len(x.Args) >= 2 && len(x.Args) <= 5 && x.Ellipsis == token.NoPos {
+					a0 := string(src[off(x.Args[0].Pos()):off(x.Args[0].End())])
+					a1 := string(src[off(x.Args[1].Pos()):off(x.Args[1].End())])
+					if a0 != a1 {
+						emit("argswap", x.Args[0].Pos(), x.Args[1].End(), a1+", "+a0)
+					}
+				}
+			case *ast.ReturnStmt:
+				if mode == "modify" && len(x.Results) >= 1 {
+					if id, ok := x.Results[len(x.Results)-1].(*ast.Ident); ok && (id.Name == "err" || strings.HasSuffix(id.Name, "Err")) {
+						emit("retnil", id.Pos(), id.End(), "nil")
+					}
 				}
 			}
 			return true
